@@ -132,9 +132,31 @@ func (y *c13Sys) model(name string, t time.Duration, S, E *time.Duration) {
 				n.ends = append(n.ends, oe)
 			}
 		}
-	} else { // old already resolved: it may or may not have been garbage collected
-		n.starts = []time.Duration{s1, min(os, s1)}
-		n.ends = []time.Duration{e1, oe}
+	} else {
+		// old already resolved. The alert GC runs every 45s from process start (t=0 in this fixture) and removes
+		// resolved alerts; whether it ran since the old end is therefore known exactly.
+		collected := false
+		for k := time.Duration(1); k*45*time.Second < t; k++ {
+			if oe <= k*45*time.Second {
+				collected = true
+			}
+		}
+		switch {
+		case collected:
+			n.starts, n.ends = []time.Duration{s1}, []time.Duration{e1}
+		case s1 < oe && e1 > os: // ranges overlap: earliest start is kept
+			n.starts = []time.Duration{min(os, s1)}
+			n.ends = []time.Duration{e1}
+			if e1 <= t { // both resolved: the later explicit end may win
+				n.ends = append(n.ends, oe)
+			}
+		default:
+			n.starts, n.ends = []time.Duration{s1}, []time.Duration{e1}
+			if e1 <= t {
+				n.ends = append(n.ends, oe)
+				n.starts = append(n.starts, min(os, s1))
+			}
+		}
 	}
 	y.m[name] = n
 }
